@@ -125,6 +125,10 @@ def quantity_milli(q):
     """resource.Quantity string -> milli-units (the generators use simple forms only)"""
     if isinstance(q, (int, float)):
         return int(q * 1000)
+    e = re.match(r"^(-?\d+(?:\.\d+)?)[eE]([+-]?\d+)$", q)
+    if e:
+        from fractions import Fraction
+        return int(Fraction(e.group(1)) * Fraction(10) ** int(e.group(2)) * 1000)
     m = re.match(r"^(-?\d+(?:\.\d+)?)(m|k|M|G|T|Ki|Mi|Gi|Ti)?$", q)
     assert m, q
     mult = {None: 1000, "m": 1, "k": 10 ** 6, "M": 10 ** 9, "G": 10 ** 12, "T": 10 ** 15,
